@@ -284,7 +284,12 @@ func verifLoopCase(out *zzverif.Out, limit int, stops []string, script []verifEv
 	}
 	out.Case(line, fmt.Sprintf("%s np=%d out=%s pend=%s", res.reason, res.np, verifHexList(res.chunks), verifHexList(res.pending)))
 	out.Count("reason_" + res.reason)
+	verifLoopL2(out, line, stops, script, res)
+}
 
+// verifLoopL2 evaluates the property on what the real code streamed (res.chunks = what the reader of
+// seq.responses received, in order); no model involved.
+func verifLoopL2(out *zzverif.Out, line string, stops []string, script []verifEv, res verifLoopResult) {
 	// ---- L2: the property evaluated on what the real code did (no model involved)
 	var gen strings.Builder
 	sawEOS := false
